@@ -91,6 +91,7 @@ class World:
     def scenario(self, **extra) -> Dict[str, Any]:
         scn = {"format": 1, "driver": "A", "runner_seed": self.r.randrange(2 ** 31), "config": self.cfg,
                "scripts": self.scripts, "probes": self.probes, "knobs": self.knobs}
+        scn.update(getattr(self, "extra", {}) or {})
         names = self.cfg["simulation"]["markets"]
         for m in self.markets:
             if m["index"] and any(names.index(c) > names.index(m["name"]) for c in m["components"]):
@@ -298,6 +299,14 @@ def gen_world(r: random.Random, profile: str) -> Dict[str, Any]:
         session_layout(r, w, r.randint(1, 4), r.choice([4, 10, 20]), p_noexec=0.3, p_noplace=0.12)
         if not any(s["withOrderExecution"] and s["withOrderPlacement"] for s in w.sessions):
             w.add_session(r.randint(2, 12), True, True, max_normal=len(w.scripted), max_hft=3, rate=1.0)
+    if P == "index" and r.random() < 0.04:
+        idx = [m for m in w.markets if m["index"]][0]
+        if r.random() < 0.5:
+            w.cfg[idx["name"]]["markets"] = w.cfg[idx["name"]]["markets"] + [w.cfg[idx["name"]]["markets"][0]]
+            w.extra = {"expect_setup_error": {"kind": "dup_component", "types": ["ValueError"], "property": "C17"}}
+        else:
+            del w.cfg[w.cfg[idx["name"]]["markets"][-1]]["outstandingShares"]
+            w.extra = {"expect_setup_error": {"kind": "component_without_shares", "types": ["AssertionError", "ValueError"], "property": "C17"}}
     p_empty = 0.5 if P == "sessions" else r.choice([0.2, 0.4, 0.6])
     fill_scripts(r, w, p_empty=p_empty, p_cancel=r.choice([0.1, 0.2, 0.3]),
                  p_market=r.choice([0.0, 0.05, 0.15]), p_ttl=r.choice([0.0, 0.4, 0.8]),
@@ -400,6 +409,12 @@ def gen_probes(r: random.Random, w: World) -> None:
         w.cfg[name] = {"class": "ProbeEvent"}
         si = r.randrange(len(w.sessions))
         w.sessions[si].setdefault("events", []).append(name)
+    if r.random() < 0.03 and w.probes:
+        # one hook object returned twice by hook_registration: registration must be refused
+        victim = r.choice(sorted(w.probes))
+        if w.probes[victim]["hooks"]:
+            w.probes[victim]["dup_hook"] = r.randint(1, 5)
+            w.extra = {"expect_setup_error": {"kind": "dup_hook", "types": ["ValueError"], "property": "C13"}}
 
 
 # ---------------------------------------------------------------------- rule-event profiles (C14, C15, C16)
